@@ -4,6 +4,7 @@ import (
 	"fmt"
 	"go/token"
 	"go/types"
+	"strings"
 
 	"golang.org/x/tools/go/ssa"
 
@@ -177,6 +178,24 @@ func runC16(c *eng.Ctx) {
 		}
 	}
 	c.Expect("MIRROR-slots", 3)
+
+	// ---------------------------------------------------------------- (3a) the even-spread target is a ceiling
+	// the per-rack / per-server cap is ceil(total / n): rounded up through math.Ceil, or (total + n - 1) / n in integers;
+	// (total + n) / n is one too many whenever total is a multiple of n
+	if fn := c.NeedFunc("weed/shell", "ceilDivide"); fn != nil {
+		for i, r := range eng.Find(fn, eng.IsReturn) {
+			v := r.(*ssa.Return).Results[0]
+			ok := eng.MentionsCall(v, "math.Ceil")
+			terms := ""
+			if !ok {
+				if q, isQ := eng.Unwrap(v).(*ssa.BinOp); isQ && q.Op == token.QUO {
+					terms = strings.Join(eng.LinearTerms(q.X), " ")
+					ok = terms == strings.Join(eng.LinearTerms(q.X), " ") && strings.Contains(terms, "-1") && strings.Count(terms, "+") == 2
+				}
+			}
+			c.Ob("MIRROR-slots", fmt.Sprintf("%s is-a-ceiling#%d", eng.FuncName(fn), i), ok, r.Pos(), "the cap is the quotient rounded up (math.Ceil, or total+n-1 over n) "+terms)
+		}
+	}
 
 	// ---------------------------------------------------------------- (3b) SCOPE-per-item
 	// The balancing steps are applied once per volume / per rack inside loops; the node lists and count tables handed to
